@@ -863,6 +863,15 @@ impl CodegenContext {
                                     None => star.span,
                                 };
 
+                                if let Some(as_) = &as_ {
+                                    if as_.path.data.contains_super() {
+                                        return Err(Diagnostic::error()
+                                            .with_message("'super' cannot be imported")
+                                            .with_labels(vec![as_.path.span.to_label()])
+                                            .into());
+                                    }
+                                }
+
                                 let scope_nx = match &as_ {
                                     Some(as_) => {
                                         // Want to import into a new named scope
@@ -901,6 +910,14 @@ impl CodegenContext {
                                         Some(as_) => &as_.path.data,
                                         None => original_path,
                                     };
+                                    // ('super' would import the importing scope into itself)
+                                    if original_path.contains_super() || target_path.contains_super()
+                                    {
+                                        return Err(Diagnostic::error()
+                                            .with_message("'super' cannot be imported")
+                                            .with_labels(vec![arg.span.to_label()])
+                                            .into());
+                                    }
                                     match self.symbols.try_index(import_nx, original_path) {
                                         Some(original_nx) => {
                                             to_export.push((
